@@ -449,13 +449,11 @@ def oracle_here(pts, h):
 def main():
     ck = Check('C10')
     ck.build_theories(['theories/Props/C10.vo', 'theories/Corr/HullK.vo'])
-    # translator tie for the orientation test; if the translator abstains the function is still
-    # covered by the correspondence below (DESIGN 2.2), which is recorded in the evidence
+    # translator tie (T): the orientation test, convex_hull itself (sort key, early return, the condition / pop /
+    # iteration of both chain loops, the assembly) and the Multi* / collection callers are regenerated from the
+    # working tree and proved equal to HullM for all arguments; an abstention makes the GenEq lemmas fail (closed)
     rep = gen_hull.main(REPO, os.path.join(ck.rundir, 'HullGen.v'))
-    if all(v == 'translated' for v in rep.values()):
-        ck.gen('HullGen.v', rep, 'HullGenEq.v')
-    else:
-        ck.translator.update(rep)
+    ck.gen('HullGen.v', rep, 'HullGenEq.v')
     ck.props('Props/C10.v')
     rng = ck.rng
     thorough = ck.tier == 'thorough'
